@@ -97,7 +97,8 @@ type c10Op struct {
 	target  int // scribble: index of an earlier op of the same task
 	reuse   int // decode ops: index of an earlier decode op (same type) whose destination is decoded into again; -1 = fresh
 	dest    reflect.Value
-	users   *[]*c10Op // every decode that was given this destination so far
+	src     reflect.Value // the value the document was rendered from
+	users   *[]*c10Op     // every decode that was given this destination so far
 	// decoder
 	stream  []byte
 	script  []int
@@ -237,8 +238,19 @@ func c10Value(t *tape.Tape, rt reflect.Type) (v, cp reflect.Value) {
 }
 
 func c10Doc(t *tape.Tape, rt reflect.Type, perturb bool) []byte {
+	b, _ := c10DocFrom(t, rt, perturb, reflect.Value{})
+	return b
+}
+
+// c10DocFrom builds a document for rt; when `from` is valid the document is
+// another rendering of that same value (same map keys, same strings), which is
+// what a destination decoded into again typically receives.
+func c10DocFrom(t *tape.Tape, rt reflect.Type, perturb bool, from reflect.Value) ([]byte, reflect.Value) {
 	vg := &gen.Values{T: t, C: gen.JSON, MaxMap: 3, MaxLen: 4}
-	v := vg.New(rt)
+	v := from
+	if !v.IsValid() {
+		v = vg.New(rt)
+	}
 	if d, ok := v.Interface().(*C10Doc); ok {
 		if t.Bool() {
 			d.Esc = "tab\there \"quoted\" \\ backé"
@@ -256,10 +268,16 @@ func c10Doc(t *tape.Tape, rt reflect.Type, perturb bool) []byte {
 	}
 	// "all documents": the input must stay untouched for near-valid input too
 	// (results are only tracked when the decode succeeds)
+	if t.Chance(1, 8) && len(b) > 2 && b[0] == '{' {
+		// repeat the first member at the end: a duplicate key within one document
+		if j := bytes.IndexByte(b, ','); j > 0 {
+			b = append(append(append([]byte(nil), b[:len(b)-1]...), ','), append(append([]byte(nil), b[1:j]...), '}')...)
+		}
+	}
 	if perturb && t.Chance(1, 3) {
 		b = c10Perturb(t, b)
 	}
-	return b
+	return b, v
 }
 
 // c10Perturb applies 1..3 character-level edits: leading zeroes inside quoted
@@ -349,7 +367,12 @@ func c10GenTask(r *core.Run, t *tape.Tape) []*c10Op {
 					op.ty = ops[op.reuse].ty
 				}
 			}
-			doc := c10Doc(t, op.ty, true)
+			var from reflect.Value
+			if op.reuse >= 0 && ops[op.reuse].src.IsValid() && t.Bool() {
+				from = ops[op.reuse].src
+			}
+			doc, src := c10DocFrom(t, op.ty, true, from)
+			op.src = src
 			if t.Chance(1, 4) {
 				doc = append(doc, "  \n"...)
 			}
